@@ -270,9 +270,10 @@ def worker(case, led):
                     finally:
                         np.random.set_state(st_)
                     occ1 = np.asarray(tp1.e_occupations_array[-1])
-                    led.check(abs(tp1.energies[-1] - e_ref) <= tol and np.abs(occ1 - np.array(occ_ref)).max() <= 4 * nsteps * per_step + 1e-9,
+                    # compared with the run from the unit-norm start (same scheme, same steps): the only difference allowed is the 1e-10 admixture of the expander
+                    led.check(abs(tp1.energies[-1] - tp.energies[-1]) <= 1e-4 * max(1.0, abs(e_ref)) and np.abs(occ1 - occ).max() <= 1e-4,
                               "post:ThermalProp.evolve:gibbs_averages_independent_of_the_norm_of_the_start", "ThermalProp.evolve",
-                              f"start scaled by 1e-9: E={tp1.energies[-1]:.6f} vs {e_ref:.6f} (tol {tol:.2e}), occupations {occ1} vs {occ_ref}", key + ("tiny-start",), fields, dict(rep, start_scale=1e-9))
+                              f"start scaled by 1e-9: E={tp1.energies[-1]:.8f} vs {tp.energies[-1]:.8f} from the unit-norm start, occupations {occ1} vs {occ}", key + ("tiny-start",), fields, dict(rep, start_scale=1e-9))
                 except Exception as e:
                     led.check(False, "post:ThermalProp.evolve:total", "ThermalProp.evolve", f"start scaled by 1e-9: raised {type(e).__name__}: {e}", key + ("tiny-start",), fields, rep)
     elif kind == "thermal_exact":
